@@ -270,6 +270,8 @@ fn gen(rng: &mut Rng, what: &str, round: usize) -> Scn {
             if round % 3 == 0 { q = rand_joints(rng, 400.0); }
             if round % 4 == 1 { p.b = rng.range(-0.1, 0.1); p.a2 = rng.range(-0.2, 0.2); }
             if round % 5 == 2 { p.dof = 5; p.sign_corrections[5] = 0; }
+            // any real link lengths (the statement says: every parameter set), negative and zero ones included
+            if round % 6 == 3 { p.a1 = rng.range(-0.5, 0.5); p.a2 = rng.range(-0.5, 0.5); p.b = rng.range(-0.5, 0.5); p.c1 = rng.range(-0.5, 0.5); p.c2 = rng.range(-0.5, 0.5); p.c3 = rng.range(-0.5, 0.5); p.c4 = rng.range(-0.5, 0.5); if rng.below(4) == 0 { p.a2 = 0.0; p.c3 = 0.0; } }
         }
         "c01" => {
             match round % 5 {
@@ -287,10 +289,14 @@ fn gen(rng: &mut Rng, what: &str, round: usize) -> Scn {
         "c08" | "c04" => {
             let mut f = [0.0; 6]; let mut t = [0.0; 6];
             for i in 0..6 {
-                match rng.below(4) {
+                match rng.below(6) {
                     0 => { f[i] = 0.0; t[i] = 0.0; }
                     1 => { let c = q[i] + rng.range(-0.5, 0.5); f[i] = c - 0.6; t[i] = c + 0.6; }
                     2 => { f[i] = rng.range(-PI, PI); t[i] = rng.range(-PI, PI); }
+                    // limits written in mixed conventions: anywhere within two turns, reversed pairs more than a turn apart included
+                    3 => { f[i] = rng.range(-TWO_PI, TWO_PI); t[i] = rng.range(-TWO_PI, TWO_PI); }
+                    // a window around the joint, each limit moved by its own number of whole turns
+                    4 => { let c = q[i] + rng.range(-0.5, 0.5); f[i] = c - 0.6 + TWO_PI * (rng.below(3) as f64 - 1.0); t[i] = c + 0.6 + TWO_PI * (rng.below(3) as f64 - 1.0); }
                     _ => { f[i] = -3.0; t[i] = 3.0; }
                 }
             }
